@@ -7,7 +7,7 @@ sed -i "s#\"/repo#\"$REPO#g" harness/Cargo.toml; export VERIF_REPO=$REPO VERIF_N
 ./setup.sh >/dev/null 2>&1
 for d in seeded/*/; do
   id=$(basename $d)
-  git -C $REPO apply $d/patch.diff 2>/dev/null || { echo "$id DOES-NOT-APPLY"; continue; }
+  git -C $REPO apply "$PWD/$d/patch.diff" 2>/dev/null || { echo "$id DOES-NOT-APPLY"; continue; }
   res=""
   for c in $(python3 -c "import json;print(' '.join(json.load(open('$d/meta.json'))['caught_by']))"); do
     ./check $c quick >/dev/null 2>&1; res="$res $c=$?"
